@@ -382,6 +382,8 @@ def neutral(draw, m, k=None):
                 m2.setdefault("statics", []).append(
                     {"name": "nsvar%d" % j, "type": texpr(draw, cx, 0, allow_array=True),
                      "tu": draw(st.integers(0, M.ntus(m2) - 1)), "static": True})
+            from .strategies import sanitize_static
+            sanitize_static(m2, m2["statics"][-1])
         elif kind == "remove_static":
             del m2["statics"][draw(st.integers(0, len(m2["statics"]) - 1))]
         elif kind == "unused_type":
